@@ -386,11 +386,12 @@ func runCheck(prop, tier string, seed int) int {
 			smp := sample{Obligation: o.O.Name(), Kind: o.O.Kind, Status: o.Status, Solver: o.Solver, TimeS: round3(o.Time), SMTNodes: o.Size, Source: src}
 			if len(samples) < 12 || o.Status != "proved" {
 				samples = append(samples, smp)
-			} else {
+			}
+			if o.Status == "proved" {
 				// the five slowest proved obligations are always reported: they
 				// are the margin against the solver timeout
 				slowest = append(slowest, smp)
-				sort.Slice(slowest, func(i, j int) bool { return slowest[i].TimeS > slowest[j].TimeS })
+				sort.SliceStable(slowest, func(i, j int) bool { return slowest[i].TimeS > slowest[j].TimeS })
 				if len(slowest) > 5 {
 					slowest = slowest[:5]
 				}
